@@ -9,6 +9,10 @@
  *       is given.  PEN: `NONE`, or a pen set with tickit_term_setpen first (the "prior pen").  Then every cell gets a
  *       sentinel character derived from SEED (so that skip and erase differ), the current pen and a write count of 0;
  *       the cursor starts at a SEED-derived position.
+ *   termm TL TC PEN SEED
+ *       the library's own mock terminal (tickit_mockterm_new), second configuration: PEN as above, the sentinel pattern is
+ *       printed through the terminal API, then the cursor is put at a SEED-derived position.  Observation: the mock
+ *       terminal's log (g / t / e / p<final>), its cursor, tt->pen, and the display text and pen of every cell.
  *   flush
  *       tickit_renderbuffer_flush_to_term(rb, tt).
  * Observation of `term`/`flush`:
@@ -16,14 +20,17 @@
  *   request log: g<l>,<c> | p<delta><final> | t<hex of str[0..len)> | e<count>,<moveend>, separated by ';'
  *   cell: <_ blank | ~ second half of a wide character | hex bytes>{pen}w<times written>
  *
- * The grid is the C twin of `Tickit.RBFlush.GridTerm` (lean/Tickit/Model/RBFlush.lean): an unbounded plane seen
- * through the window (no wrap, no clamping), UTF-8 decoded as the library's next_utf8 does, widths from the
+ * The grid is the C twin of `Tickit.RBFlush.GridTerm` (lean/Tickit/Model/RBFlush.lean): TC columns wide with the VT
+ * behaviour at the right edge (printing into the last column leaves the pending-wrap state col == cols; the next
+ * character wraps to column 0 of the next line; goto clamps the column and ends pending wrap; erasech is ECH + CUF),
+ * unbounded downwards (no scrolling), UTF-8 decoded as the library's next_utf8 does, widths from the
  * library's tickit_utf8_wcwidth, zero-width characters attached to the last character printed.
  */
 #define HCOMMON_MAIN
 #include "hcommon.h"
 #include "tickit.h"
 #include "tickit-termdrv.h"
+#include "tickit-mockterm.h"
 #include <stdint.h>
 #include "unicode.h"   /* src/unicode.h: static tickit_utf8_wcwidth (the library's own tables) */
 
@@ -59,6 +66,7 @@ typedef struct {
 
 static TickitTerm *tt;
 static GridDrv *gd;
+static int mock_lines, mock_cols;   /* > 0: tt is the library's mock terminal (tickit_mockterm_new) */
 
 static void fmt_pen(FILE *fh, const TickitPen *pen)
 {
@@ -113,6 +121,12 @@ static void cell_write(GridDrv *g, int l, int c, int kind, const unsigned char *
 
 static void put_glyph(GridDrv *g, const unsigned char *bs, size_t n, int w)
 {
+  /* DEC autowrap: a character that does not fit - in particular in the pending-wrap state col == cols - goes
+   * to column 0 of the next line (the plane is unbounded downwards: no scrolling) */
+  if(g->col + w > g->cols) {
+    g->line++;
+    g->col = 0;
+  }
   for(int k = 0; k < w; k++)
     cell_write(g, g->line, g->col + k, k == 0 ? 1 : 2, bs, n);
   g->has_last = 1; g->last_l = g->line; g->last_c = g->col;
@@ -190,6 +204,9 @@ static bool gd_goto_abs(TickitTermDriver *ttd, int line, int col)
   GridDrv *g = (GridDrv *)ttd;
   log_sep(g);
   fprintf(g->logfh, "g%d,%d", line, col);
+  /* the column is clamped to the screen; every cursor movement ends the pending-wrap state */
+  if(col > g->cols - 1) col = g->cols - 1;
+  if(col < 0) col = 0;
   g->line = line; g->col = col; g->has_last = 0;
   return true;
 }
@@ -212,12 +229,15 @@ static bool gd_erasech(TickitTermDriver *ttd, int count, TickitMaybeBool moveend
   log_sep(g);
   fprintf(g->logfh, "e%d,%d", count, (int)moveend);
   if(count < 1) return true;
-  for(int k = 0; k < count; k++)
-    cell_write(g, g->line, g->col + k, 0, NULL, 0);
+  /* ECH (+ CUF): in the pending-wrap state the cursor is on the last column; nothing is blanked past the edge */
+  int start = g->col < g->cols - 1 ? g->col : g->cols - 1;
+  for(int k = 0; k < count && start + k < g->cols; k++)
+    cell_write(g, g->line, start + k, 0, NULL, 0);
   g->has_last = 0;
-  if(moveend == TICKIT_YES) g->col += count;
+  int moved = start + count < g->cols - 1 ? start + count : g->cols - 1;
+  if(moveend == TICKIT_YES) g->col = moved;
   else if(moveend == TICKIT_MAYBE) {
-    if((g->oracle >> (g->nmaybe % 31)) & 1) g->col += count;
+    if((g->oracle >> (g->nmaybe % 31)) & 1) g->col = moved;
     g->nmaybe++;
   }
   return true;
@@ -324,7 +344,51 @@ static void obs_term(void)
   free(buf);
 }
 
-static void engine_begin(void) { rb_engine_begin(); tt = NULL; gd = NULL; }
+/* the library's mock terminal: its log, cursor, the terminal pen and what every cell displays */
+static void obs_mock(void)
+{
+  char *buf = NULL; size_t len = 0;
+  FILE *fh = open_memstream(&buf, &len);
+  fputs("log=", fh);
+  int n = tickit_mockterm_loglen(tt);
+  if(n == 0) fputc('-', fh);
+  for(int i = 0; i < n; i++) {
+    TickitMockTermLogEntry *e = tickit_mockterm_peeklog(tt, i);
+    if(i) fputc(';', fh);
+    switch(e->type) {
+      case LOG_GOTO:    fprintf(fh, "g%d,%d", e->val1, e->val2); break;
+      case LOG_PRINT:
+        fputc('t', fh);
+        if(!e->str || !e->str[0]) fputc('-', fh);
+        else for(const char *q = e->str; *q; q++) fprintf(fh, "%02x", (unsigned char)*q);
+        break;
+      case LOG_ERASECH: fprintf(fh, "e%d,%d", e->val1, e->val2); break;
+      case LOG_SETPEN:  fputc('p', fh); fmt_pen(fh, e->pen); break;
+      default:          fprintf(fh, "?%d", (int)e->type); break;
+    }
+  }
+  int line, col;
+  tickit_mockterm_get_position(tt, &line, &col);
+  fprintf(fh, " cur=%d,%d pen=", line, col);
+  fmt_pen(fh, tickit_termdrv_current_pen(tickit_term_get_driver(tt)));
+  fputs(" grid=", fh);
+  for(int l = 0; l < mock_lines; l++) {
+    if(l) fputc('/', fh);
+    for(int c = 0; c < mock_cols; c++) {
+      char text[256];
+      if(c) fputc('|', fh);
+      size_t tl = tickit_mockterm_get_display_text(tt, text, sizeof text - 1, l, c, 1);
+      if(tl == 0 || tl >= sizeof text) fputc('-', fh);
+      else for(size_t i = 0; i < tl; i++) fprintf(fh, "%02x", (unsigned char)text[i]);
+      fmt_pen(fh, tickit_mockterm_get_display_pen(tt, l, c));
+    }
+  }
+  fclose(fh);
+  obs_raw(buf, len);
+  free(buf);
+}
+
+static void engine_begin(void) { rb_engine_begin(); tt = NULL; gd = NULL; mock_lines = mock_cols = 0; }
 static void engine_end(void)
 {
   if(tt) tickit_term_unref(tt);   /* destroys the driver, too */
@@ -335,7 +399,50 @@ static void engine_end(void)
 static void engine_op(int argc, char **argv)
 {
   const char *op = argc ? argv[0] : "";
+  if(strcmp(op, "termm") == 0 && argc == 5) {
+    /* termm TL TC PEN SEED: the library's own mock terminal; the sentinel pattern is printed through the terminal API */
+    if(tt) { tickit_term_unref(tt); tt = NULL; gd = NULL; }
+    int tl = atoi(argv[1]), tc = atoi(argv[2]);
+    if(tl < 1 || tc < 1 || tl > 1000 || tc > 1000) { obs("bad-op"); return; }
+    tt = tickit_mockterm_new(tl, tc);
+    if(!tt) { obs("bad-op"); return; }
+    mock_lines = tl; mock_cols = tc;
+    if(strcmp(argv[3], "NONE") != 0) {
+      TickitPen *pen = parse_pen(argv[3]);
+      if(pen) { tickit_term_setpen(tt, pen); tickit_pen_unref(pen); }
+    }
+    unsigned long seed = strtoul(argv[4], NULL, 10);
+    char *row = malloc(tc + 1);
+    for(int l = 0; l < tl; l++) {
+      for(int c = 0; c < tc; c++)
+        row[c] = 0x21 + (seed + 7 * (unsigned long)l + 3 * (unsigned long)c) % 94;
+      tickit_term_goto(tt, l, 0);
+      tickit_term_printn(tt, row, tc);
+    }
+    free(row);
+    tickit_term_goto(tt, (int)(seed % tl), (int)((seed / 7) % tc));
+    tickit_mockterm_clearlog(tt);
+    obs("r=- ");
+    obs_mock();
+    return;
+  }
+  if(strcmp(op, "flush") == 0 && argc == 1 && mock_lines > 0) {
+    if(!rb || !tt) { obs("bad-op"); return; }
+    tickit_mockterm_clearlog(tt);
+    tickit_renderbuffer_flush_to_term(rb, tt);
+    obs("r=ok ");
+    obs_mock();
+    obs(" rb=");
+    char *buf = NULL; size_t len = 0;
+    FILE *fh = open_memstream(&buf, &len);
+    tickit_renderbuffer_verif_dump(rb, fh);
+    fclose(fh);
+    obs_raw(buf, len);
+    free(buf);
+    return;
+  }
   if(strcmp(op, "term") == 0 && argc == 7) {
+    mock_lines = mock_cols = 0;
     if(tt) { tickit_term_unref(tt); tt = NULL; gd = NULL; }
     int tl = atoi(argv[1]), tc = atoi(argv[2]);
     if(tl < 0 || tc < 0 || tl > 1000 || tc > 1000) { obs("bad-op"); return; }
@@ -356,6 +463,7 @@ static void engine_op(int argc, char **argv)
     });
     if(!tt) { obs("bad-op"); gd_destroy(&g->super); return; }
     gd = g;
+    tickit_term_set_size(tt, tl, tc);   /* what tickit_term_get_size() reports */
     if(strcmp(argv[5], "NONE") != 0) {
       TickitPen *pen = parse_pen(argv[5]);
       if(pen) {
